@@ -239,6 +239,13 @@ inline bool l2_apply(PDU& p, const std::vector<std::string>& op) {
             e.add_tag(PPPoE::tag(PPPoE::TagTypes(uint16_t(num_arg(op[1]))), b.begin(), b.end()));
             return true;
         }
+        if (n == 3 && op[0] == "add_tag_copy") {          // the `add_tag(const tag&)` overload (the rvalue one is inline)
+            bytes b;
+            if (!hex_arg(op[2], b)) return false;
+            const PPPoE::tag t(PPPoE::TagTypes(uint16_t(num_arg(op[1]))), b.begin(), b.end());
+            e.add_tag(t);
+            return true;
+        }
         if (n == 3 && op[0] == "vendor_specific") {
             bytes b;
             if (!hex_arg(op[2], b)) return false;
